@@ -18,6 +18,7 @@ import scipp as sc
 
 from rv.oracle import si
 from rv.oracle.disk import LD, PI, TWO_PI, Disk, ratio_distance, slit_set_geometry
+from rv.snap import fp as _fingerprint
 from rv.trace import Tracer
 
 ID = 'C10'
@@ -40,7 +41,23 @@ RULE = (
     'wrongly accepted one -- (constructor, time_offset_open/close, open_duration, '
     'Chopper.from_disk_chopper with 1..4 pulses) is one evaluation; distinct = distinct (call, ratio, '
     'sense, band, slit count, TDC representation, units, construction route, forbidden class) '
-    'signatures; no case is trivial'
+    'signatures; no case is trivial.  The way the caller writes a chopper down is part of the case: '
+    'the NAME of the slit dimension (deterministic grid: 20 names -- the literal dimension names of the '
+    'chopper / cascade sources, names an implementation may use for auxiliary dimensions, scipp defaults, '
+    'uuid-shaped, non-ASCII, empty -- x 1..6 slits x both senses x ratio below / equal / above 1, spread '
+    'over the shards; also for the angles of time_offset_angle_at_beam, 1-d and 2-d), the calling '
+    'convention (constructor keyword / positional / mixed; from_disk_chopper positional / keyword / mixed, '
+    'npulses and n_repetitions as numpy integers; from_nexus positional / keyword with a dict, a '
+    'DataGroup, a MappingProxyType or a plain Mapping, NXdisk_chopper.type absent / enum / str / np.str_), '
+    'subclasses of DiskChopper (overriding time_offset_angle_at_beam; one more dataclass field).  CALL '
+    'SEQUENCES on one object (deterministic grid: where the begin angles lie -- below 0 / beyond one turn '
+    '/ end beyond one turn / within one turn / both sides -- x float64 / int64 / float32 edges x deg / rad): '
+    'computation, then each of 21 operations a user or a notebook performs between computations '
+    '(make_svg in every calling convention, _repr_svg_, _repr_html_, repr, str, copy, deepcopy, '
+    'dataclasses.replace, ==, pickle, asdict, astuple, property reads, the bound methods as nodes of a '
+    'transform_coords graph, a refused call that was caught, the same calls again), after each one the '
+    'chopper is compared with what it was constructed with and the computation is repeated.  Operands '
+    'with variances (one carrier at a time) and one call with 2**20 + 7 and one with 3 x 400001 angles per run'
 )
 ASSUMPTIONS = [
     'numpy long double (x87 80 bit) evaluates the disk angle alpha(dt) = beam_position + phase - '
@@ -54,6 +71,16 @@ ASSUMPTIONS = [
     'TDC, which includes a slit wider than one turn overlapping itself; refusal is ValueError on '
     'every construction path; sets exactly on a threshold (zero width, exactly one turn, touching '
     'slits; |margin| <= 1e-9 rad) are not judged, their outcome is tallied in the counters',
+    'the disk the property speaks about is the one the chopper was constructed as: the monitors judge every '
+    'result against deep copies of the fields taken when the construction returned, so a call that rewrites '
+    'the caller\'s object cannot move the oracle along with it; "the same chopper gives the same openings" '
+    'is judged bit for bit (same object, same arguments, no state in between)',
+    'a slit written whole turns away from the others (begin > 360 deg next to slits within the first turn) '
+    'is outside the documented notation: each reported opening is judged, completeness over the covered '
+    'span is not (counter completeness_not_judged)',
+    'display, text and serialisation of a chopper may be refused (integer edges cannot be drawn, scipp '
+    'variables cannot be pickled) and scipp may refuse operands with variances (VariancesError): tallied; '
+    'the value returned by ==, repr, make_svg is not part of this property',
 ]
 TECHNIQUE = ('runtime monitors (sys.monitoring) on DiskChopper.__post_init__, from_nexus, time_offset_open/close, '
              'open_duration and Chopper.from_disk_chopper; independent rotating-disk simulator '
@@ -65,7 +92,11 @@ LEVEL_TEXT = ('exploration: every open/close pair observed in hostile generated 
               'in time, none longer than a rotation); acceptance of frequency ratios and slit sets '
               '(begin < end, no overlap on the circle incl. self-overlap) is compared with the circle '
               'geometry on every construction path, and what a wrongly accepted chopper reports is '
-              'judged again (open < close, duration, overlap in time).  Sampling, not a proof.')
+              'judged again (open < close, duration, overlap in time).  Between two computations the '
+              'chopper object is displayed, copied, compared, used in a coordinate graph: its fields stay '
+              'bit-identical to what it was constructed with, copies carry the same fields, every '
+              'repetition returns the same bits and is judged against the disk as constructed.  '
+              'Sampling, not a proof.')
 LEVEL_NOTE = ('trusted: numpy long double, the independent SI table (cross-checked against sc.to_unit at '
               'start-up), scipp containers, the disk model derived from the module documentation')
 DESIGN_REF = 'DESIGN.md section 4, C10'
@@ -85,6 +116,27 @@ OPENING_CHECKS = ('open_not_before_close', 'closed_inside_interval', 'open_outsi
                   'duration', 'slit_multiplicity', 'duplicate_opening', 'missing_opening',
                   'non_finite', 'shape', 'span_shorter_than_requested', 'overlapping_openings',
                   'longer_than_rotation')
+
+NEXUS_TYPE_SINGLE = 'Chopper type single'   # NXdisk_chopper.type of a single disk (NeXus base class)
+LARGE_ANGLES = 2 ** 20
+# Names for the dimension of the slit arrays (the property holds for every name scipp allows): the
+# literal dimension names in the chopper / cascade sources ('slit', 'edge', 'bound', 'subframe',
+# 'vertex', 'time'), names an implementation may pick for its auxiliary dimensions, scipp's default
+# names, a uuid-shaped name, a name with a non-ASCII letter and blanks, the empty name.
+DIM_NAMES = ('slit', 'edge', 'rotation', 'repetition', 'turn', 'bound', 'subframe', 'vertex', 'cutout',
+             'pulse', 'time', 'angle', 'x', 'dim_0', 'event', 'row', 'range',
+             '0b3c5a52-8f43-4c0e-9a4e-6d1f0c2b7e11', 'Spalt öffnung', '')
+RATIO_CLASSES = {'sub': [('1/4', 0.25), ('1/3', 1 / 3), ('1/2', 0.5)], 'one': [('1', 1.0)],
+                 'ge': [('2', 2.0), ('3', 3.0), ('4', 4.0), ('5', 5.0), ('8', 8.0)]}
+CTOR_FORMS = ('keyword', 'positional', 'mixed')
+CASCADE_FORMS = ('positional', 'keyword', 'mixed', 'np.int64', 'np.int32')
+NEXUS_MAPPINGS = ('dict', 'DataGroup', 'MappingProxyType', 'custom Mapping')
+NEXUS_TYPES = ('absent', 'DiskChopperType.single', 'str', 'np.str_')
+SUBCLASS_ROUTES = ('subclass_override', 'subclass_field')
+# slit sets for the call-sequence class: where the begin angles lie relative to [0, one turn)
+SEQ_REPS = ('negative_begin', 'begin_gt_turn', 'end_gt_turn', 'within_turn', 'both_sides')
+SEQ_DTYPES = ('float64', 'int64', 'float32')
+VARIANCE_CARRIERS = ('phase', 'beam_position', 'frequency', 'slit_edges', 'pulse_frequency', 'angle')
 
 
 # ------------------------------------------------------------ observation ---
@@ -117,6 +169,44 @@ def _is_time(unit):
         return False
 
 
+FIELD_NAMES = ('axle_position', 'frequency', 'beam_position', 'phase', 'slit_begin', 'slit_end',
+               'slit_height', 'radius')
+
+
+class Frozen:
+    """The fields of a DiskChopper as they were when its construction returned: deep copies for the
+    oracle (the disk the chopper was built from) and bit-exact fingerprints (dims, shape, unit,
+    dtype, raw bytes) to tell whether a later call rewrote the caller's object."""
+
+    def __init__(self, ch):
+        self.ref = ch
+        self.bits = {}
+        for n in FIELD_NAMES:
+            v = getattr(ch, n, None)
+            self.bits[n] = _fingerprint(v)
+            setattr(self, n, v.copy() if isinstance(v, sc.Variable) else v)
+
+    def adopted_by(self, other):
+        new = object.__new__(Frozen)
+        new.__dict__.update(self.__dict__)
+        new.bits = dict(self.bits)
+        new.ref = other
+        return new
+
+
+def _has_variances(*operands):
+    for v in operands:
+        if isinstance(v, sc.Variable):
+            if v.variances is not None:
+                return True
+        elif v is not None and not isinstance(v, (int, float, str)):
+            for n in FIELD_NAMES:
+                f = getattr(v, n, None)
+                if isinstance(f, sc.Variable) and f.variances is not None:
+                    return True
+    return False
+
+
 def disk_of(ch):
     """Rotating disk from the fields of the observed DiskChopper (inputs only)."""
     f_hz = _scalar(ch.frequency)
@@ -129,6 +219,15 @@ def angle_magnitude(ch, disk, rotations):
     m = abs(_scalar(ch.beam_position)) + abs(_scalar(ch.phase))
     m += max(LD(np.max(np.abs(disk.begin))), LD(np.max(np.abs(disk.end))))
     return m + TWO_PI * (rotations + 2)
+
+
+def within_one_turn(disk):
+    """The slit angles are given within one turn of each other (the documented way of writing a slit
+    set: angles from TDC, a slit across TDC with end > 360 deg or a negative begin).  For a slit written
+    whole turns away from the others the reported rotations -1 .. n-1 of that slit are other rotations
+    of the disk than those of the other slits: every reported opening is still judged, but 'the covered
+    span' is then not one contiguous run of rotations and completeness over it is not judged."""
+    return bool(np.max(disk.begin) - np.min(disk.begin) < TWO_PI)
 
 
 def check_openings(disk, to, tc, tol_t, min_span=None, geometry_valid=True):
@@ -265,7 +364,8 @@ def check_openings(disk, to, tc, tol_t, min_span=None, geometry_valid=True):
     n_true, n_grid = disk.count_rising_edges(t_lo, t_hi)
     stats['grid_points'] = n_grid
     stats['openings_in_span'] = n_true
-    if n_true > distinct_valid:
+    stats['complete_domain'] = within_one_turn(disk)
+    if n_true > distinct_valid and stats['complete_domain']:
         prob['missing_opening'] = {'openings_in_span': n_true, 'reported': int(n),
                                    'reported_valid_distinct': distinct_valid,
                                    'span': [float(t_lo), float(t_hi)]}
@@ -289,16 +389,52 @@ class Monitors:
         self.cache = {}      # bytes key -> (ok, k_mid)
         self.cascade_stack = []
         self.case = {}       # description of the generated case currently driven
+        self.frozen = {}     # id(chopper) -> Frozen (holds the chopper: its id stays unique)
 
     def new_case(self, case):
         self.pairs.clear()
         self.cache.clear()
         self.cascade_stack.clear()
+        self.frozen.clear()
         self.case = case
+
+    # -- the chopper as it was constructed ---------------------------------------
+    def freeze(self, ch):
+        self.frozen[id(ch)] = Frozen(ch)
+
+    def view(self, ch):
+        """The fields the chopper was constructed with (the disk the property speaks about); the
+        object itself when its construction was not observed."""
+        fz = self.frozen.get(id(ch))
+        return fz if fz is not None and fz.ref is ch else ch
+
+    def adopt(self, copy_, original):
+        """A copy of a chopper stands for the same disk as the original."""
+        fz = self.frozen.get(id(original))
+        if fz is not None and fz.ref is original:
+            self.frozen[id(copy_)] = fz.adopted_by(copy_)
+
+    def changed_fields(self, ch, reference=None, ignore=()):
+        """Names of the fields of ``ch`` that are no longer bit-identical to the fields ``reference``
+        (default: ``ch`` itself) was constructed with; None if the construction was not observed."""
+        ref = ch if reference is None else reference
+        fz = self.frozen.get(id(ref))
+        if fz is None or fz.ref is not ref:
+            return None
+        return [n for n in FIELD_NAMES
+                if n not in ignore and _fingerprint(getattr(ch, n, None)) != fz.bits[n]]
+
+    def refused_for_variances(self, where, exc, *operands):
+        """scipp refuses operations that would need correlated variances (VariancesError): such a
+        refusal of an operand that carries variances is tallied, not judged."""
+        if exc is not None and isinstance(exc, sc.VariancesError) and _has_variances(*operands):
+            self.ctx.count(f'refusal:variances:{where}')
+            return True
+        return False
 
     # -- acceptance of the frequency ratio --------------------------------
     def ratio_info(self, ch, fp):
-        f_hz = _scalar(ch.frequency)
+        f_hz = _scalar(self.view(ch).frequency)
         fp_hz = _scalar(fp)
         kind, n, rel, r = ratio_distance(f_hz, fp_hz)
         return {'kind': kind, 'n': n, 'rel': rel, 'ratio': r, 'f_hz': f_hz, 'fp_hz': fp_hz}
@@ -426,6 +562,10 @@ class Monitors:
             if not (isinstance(begin, sc.Variable) and isinstance(end, sc.Variable)):
                 self.ctx.count('out_of_domain:slit edges')
                 return
+            if ev.exc is None:
+                self.freeze(ch)
+            if self.refused_for_variances('constructor', ev.exc, ch):
+                return
         except Exception:  # noqa: BLE001
             self.ctx.oracle_error('C10 post_init')
             return
@@ -438,9 +578,16 @@ class Monitors:
         try:
             m = ev.args.get('chopper')
             need = ('position', 'rotation_speed', 'beam_position', 'phase')
-            if not hasattr(m, 'get') or any(m.get(k) is None for k in need) or m.get(
-                    'type') is not None:
+            if not hasattr(m, 'get') or any(m.get(k) is None for k in need):
                 ctx.count('out_of_domain:from_nexus mapping')
+                return
+            typ = m.get('type')
+            if typ is not None and not (isinstance(typ, str) and typ == NEXUS_TYPE_SINGLE):
+                # NXdisk_chopper.type other than a single disk: not a chopper of this property
+                ctx.count('out_of_domain:from_nexus mapping')
+                return
+            if self.refused_for_variances('from_nexus', ev.exc, *[m.get(k) for k in (
+                    'slit_edges', 'slit_begin', 'slit_end', 'rotation_speed', 'beam_position', 'phase')]):
                 return
             edges = m.get('slit_edges')
             if edges is not None:
@@ -465,6 +612,9 @@ class Monitors:
         ch, fp = ev.args.get('self'), ev.args.get('pulse_frequency')
         if self.cascade_stack:
             self.cascade_stack[-1][which] = (ev.result, ev.exc)
+        if self.refused_for_variances(f'time_offset_{which}', ev.exc, ch, fp):
+            self.pairs.pop(id(ch), None)
+            return
         if ev.depth == 0:
             ok = self.judge_acceptance(f'time_offset_{which}', ch, fp, ev.exc)
         else:
@@ -494,12 +644,15 @@ class Monitors:
             return
         ch, angle, nrep = ev.args.get('self'), ev.args.get('angle'), ev.args.get('n_repetitions')
         case = dict(self.case, angle=_describe_var(angle), n_repetitions=nrep)
+        if self.refused_for_variances('time_offset_angle_at_beam', ev.exc, ch, angle):
+            return
         if ev.exc is not None:
             ctx.violation('angle_at_beam.raised', f'time_offset_angle_at_beam raised {type(ev.exc).__name__}: '
                           f'{ev.exc}'[:300], case, exc=type(ev.exc).__name__)
             return
         try:
-            disk, _ = disk_of(ch)
+            fz = self.view(ch)
+            disk, _ = disk_of(fz)
             a = np.atleast_1d(_rad(angle))
             res = ev.result
             dt = np.asarray(si.si(res), dtype=LD)
@@ -515,7 +668,7 @@ class Monitors:
             # element [.., r * n_last + j] belongs to angle [.., j]
             want = np.concatenate([a] * (int(nrep) + 1), axis=-1)
             off = np.mod(disk.alpha(dt) - want + PI, TWO_PI) - PI
-            mag = (abs(_scalar(ch.beam_position)) + abs(_scalar(ch.phase)) + LD(np.max(np.abs(a)))
+            mag = (abs(_scalar(fz.beam_position)) + abs(_scalar(fz.phase)) + LD(np.max(np.abs(a)))
                    + TWO_PI * (int(nrep) + 2))
             tol = K_TOL * EPS * mag
             worst = float(np.max(np.abs(off)))
@@ -523,6 +676,8 @@ class Monitors:
             ctx.event('angle_at_beam')
             if angle.ndim == 0:
                 ctx.event('angle_at_beam.scalar_angle')
+            if a.size >= LARGE_ANGLES:
+                ctx.event('angle_at_beam.large_array')
             if worst > tol:
                 ctx.violation('angle_at_beam.value', f'at the returned time offset the disk angle under the beam '
                               f'differs from the requested angle by {worst:.3g} rad (bound {float(tol):.3g})', case)
@@ -550,14 +705,14 @@ class Monitors:
             if key in self.cache:
                 ctx.count('pair.direct.repeat_of_judged_pair')
                 return self.cache[key]
-            disk, _ = disk_of(ch)
+            disk, _ = disk_of(self.view(ch))
             geo = slit_set_geometry(disk.begin, disk.end, GAP_BAND)
             if geo['verdict'] not in ('valid', 'invalid'):
                 ctx.count(f'pair_not_judged:slit set {geo["verdict"]} ({geo["reason"]})')
                 return None
             valid = geo['verdict'] == 'valid'
             rot = int(np.ceil(max(ri['ratio'], 1.0))) + 1
-            tol_t = K_TOL * EPS * angle_magnitude(ch, disk, rot) / abs(disk.omega)
+            tol_t = K_TOL * EPS * angle_magnitude(self.view(ch), disk, rot) / abs(disk.omega)
             prob, stats = check_openings(disk, to, tc, tol_t, min_span=1 / ri['fp_hz'],
                                          geometry_valid=valid)
         except Exception:  # noqa: BLE001
@@ -579,6 +734,8 @@ class Monitors:
             if k in stats and not prob:
                 ctx.dev(f'{origin.split("_")[0]}.{k}', stats[k])
         ctx.count('scan_grid_points', int(stats.get('grid_points', 0)))
+        if stats.get('complete_domain') is False:
+            ctx.count('completeness_not_judged:slits written more than one turn apart')
         if stats.get('oracle_inconsistent'):
             ctx.inconclusive_because('C10 oracle inconsistency: more valid distinct reported intervals '
                                      'than rising edges found by the scan')
@@ -592,7 +749,7 @@ class Monitors:
             # not a whole turn) shows up in several checks at once
             checks = sorted(prob)
             case = dict(self.case, origin=origin, npulses=npulses, ratio=ri['ratio'], checks=prob,
-                        chopper=_describe(ch), pulse_frequency_hz=float(ri['fp_hz']),
+                        chopper=_describe(self.view(ch)), pulse_frequency_hz=float(ri['fp_hz']),
                         time_open_s=[float(x) for x in to[:64]],
                         time_close_s=[float(x) for x in tc[:64]])
             ctx.violation(f'{origin}.misplaced_openings',
@@ -601,7 +758,7 @@ class Monitors:
             return False
         for check, info in prob.items():
             case = dict(self.case, origin=origin, npulses=npulses, ratio=ri['ratio'], check=check,
-                        info=info, chopper=_describe(ch), pulse_frequency_hz=float(ri['fp_hz']),
+                        info=info, chopper=_describe(self.view(ch)), pulse_frequency_hz=float(ri['fp_hz']),
                         time_open_s=[float(x) for x in to[:64]],
                         time_close_s=[float(x) for x in tc[:64]])
             ctx.violation(f'{origin}.{check}',
@@ -613,6 +770,8 @@ class Monitors:
     def on_open_duration(self, ev):
         ctx = self.ctx
         ch, fp = ev.args.get('self'), ev.args.get('pulse_frequency')
+        if self.refused_for_variances('open_duration', ev.exc, ch, fp):
+            return
         ok = self.judge_acceptance('open_duration', ch, fp, ev.exc) if ev.depth == 0 else None
         if ev.exc is not None:
             if ok is True:
@@ -627,11 +786,11 @@ class Monitors:
                 ctx.count('open_duration.no_observed_pair')
                 return
             ri = self.ratio_info(ch, fp)
-            disk, _ = disk_of(ch)
+            disk, _ = disk_of(self.view(ch))
             to, tc = si.si(slot['open']), si.si(slot['close'])
             dur = si.si(ev.result)
             rot = int(np.ceil(max(ri['ratio'], 1.0))) + 1
-            tol_t = K_TOL * EPS * angle_magnitude(ch, disk, rot) / abs(disk.omega)
+            tol_t = K_TOL * EPS * angle_magnitude(self.view(ch), disk, rot) / abs(disk.omega)
             if dur.shape != to.shape:
                 ctx.violation('open_duration.shape', f'{dur.shape} durations for {to.shape} openings',
                               dict(self.case))
@@ -663,7 +822,7 @@ class Monitors:
             i = int(np.argmin(dur))
             ctx.violation('open_duration.not_positive',
                           f'open_duration {float(dur[i])!r} s is not a positive duration',
-                          dict(self.case, chopper=_describe(ch), got=float(dur[i]), index=i,
+                          dict(self.case, chopper=_describe(self.view(ch)), got=float(dur[i]), index=i,
                                n=int(np.count_nonzero(not_pos))),
                           sense='clockwise' if ri['f_hz'] < 0 else 'anticlockwise',
                           slit_set='valid' if geo['verdict'] == 'valid' else geo['reason'])
@@ -673,7 +832,7 @@ class Monitors:
             i = int(np.argmax(err))
             ctx.violation('open_duration.value',
                           f'open_duration {float(dur[i])!r} s, slit width/|omega| = {float(want[i])!r} s',
-                          dict(self.case, chopper=_describe(ch), got=float(dur[i]),
+                          dict(self.case, chopper=_describe(self.view(ch)), got=float(dur[i]),
                                expected=float(want[i]), index=i),
                           sense='clockwise' if ri['f_hz'] < 0 else 'anticlockwise',
                           negative=bool(np.any(dur < 0)))
@@ -687,12 +846,15 @@ class Monitors:
         nested = self.cascade_stack.pop() if self.cascade_stack else {}
         ch, fp, npulses = (ev.args.get('disk_chopper'), ev.args.get('pulse_frequency'),
                            ev.args.get('npulses'))
+        if self.refused_for_variances('from_disk_chopper', ev.exc, ch, fp):
+            return
         ok = self.judge_acceptance('from_disk_chopper', ch, fp, ev.exc)
         if ok is not True:
             return
         try:
             ri = self.ratio_info(ch, fp)
             mixed = ch.frequency.unit != fp.unit
+            npulses = int(npulses)     # numpy integers are integers
         except Exception:  # noqa: BLE001
             ctx.oracle_error('C10 cascade')
             return
@@ -701,17 +863,17 @@ class Monitors:
             ctx.violation('cascade.raised',
                           f'from_disk_chopper(npulses={npulses}) raised {type(ev.exc).__name__}: '
                           f'{ev.exc}'[:300],
-                          dict(self.case, chopper=_describe(ch), npulses=npulses,
+                          dict(self.case, chopper=_describe(self.view(ch)), npulses=npulses,
                                pulse_frequency=[fp.value, str(fp.unit)]),
                           exc=type(ev.exc).__name__, mixed_frequency_units=bool(mixed))
             return
         try:
             res = ev.result
             to, tc = si.si(res.time_open), si.si(res.time_close)
-            disk, _ = disk_of(ch)
+            disk, _ = disk_of(self.view(ch))
             rot = int(np.ceil(npulses * max(ri['ratio'], 1.0))) + 1
             t_pulse = 1 / ri['fp_hz']
-            tol_t = (K_TOL * EPS * angle_magnitude(ch, disk, rot) / abs(disk.omega)
+            tol_t = (K_TOL * EPS * angle_magnitude(self.view(ch), disk, rot) / abs(disk.omega)
                      + K_TOL * EPS * npulses * t_pulse
                      # the property lets a ratio within ~1e-8 of n or 1/n count as in phase; a
                      # result built on that idealisation is off by (relative distance) x time
@@ -900,6 +1062,145 @@ def gen_case(rng, ctx):
     return c
 
 
+def gen_call_forms(rng, c):
+    """How the case is written down by the caller (drawn from a stream of its own): the name of
+    the slit dimension, the calling convention of the constructor / from_nexus / from_disk_chopper,
+    the Mapping type and the spelling of NXdisk_chopper.type handed to from_nexus, subclasses."""
+    c['dim'] = 'slit' if rng.random() < 0.4 else DIM_NAMES[rng.integers(0, len(DIM_NAMES))]
+    if rng.random() < 0.1:
+        c['dim'] = ''.join('abcdefghijklmnopqrstuvwxyz_'[i] for i in rng.integers(0, 27, size=int(rng.integers(1, 12))))
+    c['form'] = CTOR_FORMS[rng.integers(0, 3)]
+    c['cascade_form'] = CASCADE_FORMS[rng.integers(0, len(CASCADE_FORMS))]
+    c['mapping'] = NEXUS_MAPPINGS[rng.integers(0, 4)]
+    c['nexus_type'] = NEXUS_TYPES[rng.integers(0, 4)]
+    if c.get('via') == 'ctor' and rng.random() < 0.3:
+        c['via'] = SUBCLASS_ROUTES[rng.integers(0, 2)]
+    return c
+
+
+def gen_dim_case(rng, dim, n, sign, ratio_class, k):
+    """A valid chopper whose slit arrays use the dimension name ``dim``: n slits from a random
+    partition of the circle, the given sense of rotation and class of frequency ratio."""
+    tdc = ('none', 'end>360', 'negative_begin')[k % 3]
+    b, e, w, g, js = gen_slits_deg(rng, n, tdc != 'none')
+    rep = 'none'
+    if js is not None:
+        rep = 'end>360'
+        if tdc == 'negative_begin':
+            b[js] -= 360.0
+            e[js] -= 360.0
+            rep = 'negative_begin'
+    perm = rng.permutation(n)
+    b, e = b[perm], e[perm]
+    a_unit = ('deg', 'rad')[(k // 3) % 2]
+    if a_unit == 'rad':
+        b, e = np.radians(b), np.radians(e)
+    c = dict(dim_class=dim, n_slits=n, overlap=None, tdc=rep, a_unit=a_unit, begin=b, end=e, dim=dim)
+    gen_frame(rng, c)
+    fp_hz = [14.0, 10.0, 50.0, 100 / 6][rng.integers(0, 4)]
+    fp_unit = F_UNITS[rng.integers(0, 3)]
+    f_unit = fp_unit if rng.random() < 0.5 else F_UNITS[rng.integers(0, 3)]
+    rc = RATIO_CLASSES[ratio_class]
+    label, ratio = rc[rng.integers(0, len(rc))]
+    c.update(fp=(float(fp_hz / F_UNIT_HZ[fp_unit]), fp_unit),
+             f=(float(sign * ratio * fp_hz / F_UNIT_HZ[f_unit]), f_unit), ratio=label, sign=int(sign),
+             band='exact', ratio_class=ratio_class,
+             via=('ctor', 'nexus_edges', 'replace', 'nexus_begin_end', 'subclass_override', 'ctor',
+                  'subclass_field')[k % 7],
+             form=CTOR_FORMS[k % 3], cascade_form=CASCADE_FORMS[k % len(CASCADE_FORMS)],
+             mapping=NEXUS_MAPPINGS[(k // 2) % 4], nexus_type=NEXUS_TYPES[(k // 7) % 4])
+    return c
+
+
+def dim_grid():
+    """(dimension name, number of slits, sense, class of frequency ratio): all of them."""
+    return [(dim, n, sign, rc) for dim in DIM_NAMES for n in range(1, 7) for sign in (-1, 1)
+            for rc in RATIO_CLASSES]
+
+
+def _turn(a_unit):
+    return 360.0 if a_unit == 'deg' else 2 * np.pi
+
+
+def seq_rep_holds(rep, b, e, turn):
+    """Does the slit set lie relative to [0, one turn) the way the class says?"""
+    if rep == 'negative_begin':
+        return bool(np.any(b < 0) and not np.any(b >= turn))
+    if rep == 'begin_gt_turn':
+        return bool(np.any(b > turn) and not np.any(b < 0))
+    if rep == 'end_gt_turn':
+        return bool(np.any(e > turn) and np.all(b >= 0) and np.all(b < turn))
+    if rep == 'within_turn':
+        return bool(np.all(b >= 0) and np.all(e <= turn))
+    return bool(np.any(b < 0) and np.any(b > turn))
+
+
+def _gen_seq_floats(rng, rep, dtype, a_unit, n_min):
+    n = int(rng.integers(n_min, 7))
+    b, e, w, g, js = gen_slits_deg(rng, n, rep in ('negative_begin', 'end_gt_turn', 'both_sides'))
+    others = [j for j in range(n) if j != js]
+    if rep in ('negative_begin', 'both_sides'):
+        b[js] -= 360.0
+        e[js] -= 360.0
+    if rep in ('begin_gt_turn', 'both_sides'):
+        j = int(others[rng.integers(0, len(others))])
+        shift = 360.0 * int(rng.integers(1, 3))
+        b[j] += shift
+        e[j] += shift
+    if rep == 'negative_begin' and rng.random() < 0.5 and others:
+        j = int(others[rng.integers(0, len(others))])   # one more slit, a whole turn back
+        b[j] -= 360.0
+        e[j] -= 360.0
+    perm = rng.permutation(n)
+    b, e = b[perm], e[perm]
+    if a_unit == 'rad':
+        b, e = np.radians(b), np.radians(e)
+    if dtype == 'float32':
+        b, e = b.astype(np.float32).astype(float), e.astype(np.float32).astype(float)
+    return b, e
+
+
+def gen_seq_case(rng, rep, dtype, a_unit, k):
+    """A valid chopper for the call-sequence class: slit edges in ``dtype`` (integer edges are whole
+    numbers of deg or rad) whose begin angles lie below 0 / beyond one turn / within one turn."""
+    turn = _turn(a_unit)
+    n_min = 2 if rep == 'both_sides' else 1
+    b = e = None
+    if dtype.startswith('int'):
+        # whole numbers: drawn directly, kept when the circle geometry (independent oracle) calls
+        # the set valid and the class predicate holds
+        lo, hi, wmax, nmax = (-360, 720, 150, 4) if a_unit == 'deg' else (-6, 12, 3, 2)
+        for _ in range(20000):
+            n = int(rng.integers(n_min, nmax + 1))
+            bb = rng.integers(lo, hi, size=n).astype(float)
+            ee = bb + rng.integers(1, wmax + 1, size=n)
+            if not seq_rep_holds(rep, bb, ee, turn):
+                continue
+            geo = slit_set_geometry(bb * (2 * np.pi / turn), ee * (2 * np.pi / turn), GAP_BAND)
+            if geo['verdict'] == 'valid' and geo['margin'] > 1e-3:
+                b, e = bb, ee
+                break
+        if b is None:
+            raise AssertionError(f'no integer slit set for {rep} {a_unit}')
+    else:
+        for _ in range(200):
+            b, e = _gen_seq_floats(rng, rep, dtype, a_unit, n_min)
+            if seq_rep_holds(rep, b, e, turn):
+                break
+        else:
+            raise AssertionError(f'no slit set of class {rep}')
+    c = dict(sequence=rep, dtype=dtype, n_slits=int(len(b)), overlap=None, tdc=rep, a_unit=a_unit,
+             begin=b, end=e, dim=('slit', 'edge', 'rotation', 'x')[k % 4], via='ctor',
+             form=CTOR_FORMS[k % 3], drawn=(None, 'scalar height', 'height per slit')[(k // 2) % 3])
+    gen_frame(rng, c)
+    gen_exact_frequencies(rng, c)
+    return c
+
+
+def seq_grid():
+    return [(rep, dtype, a_unit) for rep in SEQ_REPS for dtype in SEQ_DTYPES for a_unit in ('deg', 'rad')]
+
+
 def gen_exact_frequencies(rng, c):
     """In-phase chopper (exact ratio 1/2, 1, 2, 3 of either sign), same or different units."""
     fp_hz = [14.0, 10.0, 50.0][rng.integers(0, 3)]
@@ -1065,25 +1366,99 @@ def gen_threshold(rng, cls):
     return c
 
 
-def _edges(values, unit, scalar=False):
+def _edges(values, unit, scalar=False, dim='slit', dtype='float64', variances=None):
     if scalar:
         return sc.scalar(float(values[0]), unit=unit)
-    return sc.array(dims=['slit'], values=np.asarray(values, dtype=float), unit=unit)
+    kw = {} if variances is None else {'variances': np.asarray(variances, dtype=dtype)}
+    return sc.array(dims=[dim], values=np.asarray(values, dtype=dtype), unit=unit, dtype=dtype, **kw)
+
+
+_SUBCLASSES = {}
+
+
+def subclass_of(DiskChopper, route):
+    """Stand-ins a user may write: a subclass that overrides the documented building block
+    (passing through to the base class) and a dataclass subclass with one more field."""
+    import dataclasses
+
+    key = (DiskChopper, route)
+    if key not in _SUBCLASSES:
+        if route == 'subclass_override':
+            class OverridingChopper(DiskChopper):
+                calls = 0
+
+                def time_offset_angle_at_beam(self, *, angle, n_repetitions=1):
+                    type(self).calls += 1
+                    return super().time_offset_angle_at_beam(angle=angle, n_repetitions=n_repetitions)
+
+            _SUBCLASSES[key] = OverridingChopper
+        else:
+            @dataclasses.dataclass(frozen=True, eq=False)
+            class NamedChopper(DiskChopper):
+                name: str = 'chopper'
+
+            _SUBCLASSES[key] = NamedChopper
+    return _SUBCLASSES[key]
+
+
+class _PlainMapping:
+    """A Mapping that is not a dict (registered below): __getitem__, __iter__, __len__ only, the rest
+    comes from collections.abc.Mapping."""
+
+    def __init__(self, d):
+        self._d = dict(d)
+
+    def __getitem__(self, k):
+        return self._d[k]
+
+    def __iter__(self):
+        return iter(self._d)
+
+    def __len__(self):
+        return len(self._d)
+
+
+def _plain_mapping(d):
+    from collections.abc import Mapping
+
+    cls = _SUBCLASSES.get('mapping')
+    if cls is None:
+        cls = _SUBCLASSES['mapping'] = type('PlainMapping', (_PlainMapping, Mapping), {})
+    return cls(d)
 
 
 def build(case, DiskChopper):
     import dataclasses
+    import types
 
     scalar = case['via'] == 'ctor_scalar'
-    b = _edges(case['begin'], case['a_unit'], scalar)
-    e = _edges(case['end'], case['a_unit'], scalar)
-    f = sc.scalar(case['f'][0], unit=case['f'][1])
-    bp = sc.scalar(case['beam_position'][0], unit=case['beam_position'][1])
-    ph = sc.scalar(case['phase'][0], unit=case['phase'][1])
+    dim, dtype = case.get('dim', 'slit'), case.get('dtype', 'float64')
+    var = case.get('variances')
+    ev = {}
+    if var == 'slit_edges':
+        ev = {'variances': np.full(len(case['begin']), 1e-6)}
+    b = _edges(case['begin'], case['a_unit'], scalar, dim, dtype, **ev)
+    e = _edges(case['end'], case['a_unit'], scalar, dim, dtype, **ev)
+    f = sc.scalar(case['f'][0], unit=case['f'][1], **({'variance': 1e-12} if var == 'frequency' else {}))
+    bp = sc.scalar(case['beam_position'][0], unit=case['beam_position'][1],
+                   **({'variance': 1e-6} if var == 'beam_position' else {}))
+    ph = sc.scalar(case['phase'][0], unit=case['phase'][1], **({'variance': 1e-6} if var == 'phase' else {}))
     pos = sc.vector([0.0, 0.0, 7.5], unit='m')
-    if case['via'] in ('ctor', 'ctor_scalar'):
-        return DiskChopper(axle_position=pos, frequency=f, beam_position=bp, phase=ph,
-                           slit_begin=b, slit_end=e)
+    extra = {}
+    if case.get('drawn'):
+        # the optional fields that only matter for drawing the chopper
+        extra = {'slit_height': sc.scalar(0.1, unit='m') if case['drawn'] == 'scalar height' else
+                 sc.array(dims=[dim], values=np.linspace(0.05, 0.1, len(case['begin'])), unit='m'),
+                 'radius': sc.scalar(0.35, unit='m')}
+    if case['via'] in ('ctor', 'ctor_scalar', *SUBCLASS_ROUTES):
+        cls = subclass_of(DiskChopper, case['via']) if case['via'] in SUBCLASS_ROUTES else DiskChopper
+        form = case.get('form', 'keyword')
+        if form == 'positional':
+            return cls(pos, f, bp, ph, b, e, *extra.values())
+        if form == 'mixed':
+            return cls(pos, f, bp, slit_end=e, slit_begin=b, phase=ph, **extra)
+        return cls(axle_position=pos, frequency=f, beam_position=bp, phase=ph,
+                   slit_begin=b, slit_end=e, **extra)
     if case['via'] == 'replace':
         # dataclasses.replace on an existing (valid) chopper: the same validation must run
         if 'base_begin' in case:
@@ -1093,18 +1468,36 @@ def build(case, DiskChopper):
             if case['a_unit'] == 'rad':
                 bb, be = np.radians(bb), np.radians(be)
         base = DiskChopper(axle_position=pos, frequency=f, beam_position=bp, phase=ph,
-                           slit_begin=_edges(bb, case['a_unit']), slit_end=_edges(be, case['a_unit']))
+                           slit_begin=_edges(bb, case['a_unit'], False, dim, dtype),
+                           slit_end=_edges(be, case['a_unit'], False, dim, dtype), **extra)
         if np.array_equal(bb, case['begin']) and not np.array_equal(be, case['end']):
             return dataclasses.replace(base, slit_end=e)
         if np.array_equal(be, case['end']) and not np.array_equal(bb, case['begin']):
             return dataclasses.replace(base, slit_begin=b)
         return dataclasses.replace(base, slit_begin=b, slit_end=e)
-    d = {'position': pos, 'rotation_speed': f, 'beam_position': bp, 'phase': ph}
+    d = {'position': pos, 'rotation_speed': f, 'beam_position': bp, 'phase': ph, **extra}
     if case['via'] == 'nexus_edges':
         edges = np.stack([case['begin'], case['end']], axis=1).ravel()
-        d['slit_edges'] = sc.array(dims=['slit'], values=edges, unit=case['a_unit'])
+        d['slit_edges'] = _edges(edges, case['a_unit'], False, dim, dtype,
+                                 **({'variances': np.full(edges.size, 1e-6)} if ev else {}))
     else:
         d['slit_begin'], d['slit_end'] = b, e
+    typ = case.get('nexus_type', 'absent')
+    if typ != 'absent':
+        from scippneutron.chopper.disk_chopper import DiskChopperType
+
+        # the documented value of NXdisk_chopper.type for a single disk, in the types a file reader hands over
+        d['type'] = {'DiskChopperType.single': DiskChopperType.single, 'str': NEXUS_TYPE_SINGLE,
+                     'np.str_': np.str_(NEXUS_TYPE_SINGLE)}[typ]
+    mapping = case.get('mapping', 'dict')
+    if mapping == 'DataGroup':
+        d = sc.DataGroup(d)
+    elif mapping == 'MappingProxyType':
+        d = types.MappingProxyType(d)
+    elif mapping == 'custom Mapping':
+        d = _plain_mapping(d)
+    if case.get('form') == 'keyword':
+        return DiskChopper.from_nexus(chopper=d)
     return DiskChopper.from_nexus(d)
 
 
@@ -1146,10 +1539,13 @@ def valid_edge_grid(rep):
 
 
 # ------------------------------------------------------------------ driver ---
+N_SHARDS = 14      # one wave on 16 cores together with the two environment-variant shards
+
+
 def plan(tier, seed):
-    n = 32 if tier == 'quick' else 1250
+    n = 37 if tier == 'quick' else 1430
     reps = 1 if tier == 'quick' else 12
-    return [{'choppers': n, 'grid_reps': reps} for _ in range(16)]
+    return [{'choppers': n, 'grid_reps': reps, 'n_shards': N_SHARDS} for _ in range(N_SHARDS)]
 
 
 def requirements(tier):
@@ -1164,8 +1560,8 @@ def requirements(tier):
     }
     if big:
         ev = {k: v * 20 for k, v in ev.items()}
-    # the deterministic grid of forbidden slit sets: 16 shards x reps x (classes x n x unit x path)
-    g = 16 * (12 if big else 1)
+    # the deterministic grid of forbidden slit sets: shards x reps x (classes x n x unit x path)
+    g = N_SHARDS * (12 if big else 1)
     ev.update({
         'ctor.must_reject.reversed': 100 * g, 'ctor.must_reject.self_overlap': 100 * g,
         'ctor.must_reject.overlap': 150 * g,
@@ -1191,14 +1587,73 @@ def requirements(tier):
     forced += ['forbidden set in deg', 'forbidden set in rad', 'forbidden by a tiny amount']
     forced += [f'valid edge set: {c}' for c in VALID_DRIVEN + VALID_CTOR_ONLY]
     forced += ['valid set via replace']
+    # round 6: the way the caller writes the chopper down and what happens between two computations
+    reps = 12 if big else 1
+    forced += [f'slit dimension named {d!r}' for d in DIM_NAMES]
+    forced += [f'named slit dimension: {n} slit(s)' for n in range(1, 7)]
+    forced += [f'named slit dimension: {x}' for x in ('clockwise', 'anticlockwise', 'ratio sub', 'ratio one',
+                                                      'ratio ge')]
+    forced += [f'constructor called {f}' for f in CTOR_FORMS]
+    forced += [f'from_disk_chopper called {f}' for f in CASCADE_FORMS]
+    forced += [f'from_nexus given a {m}' for m in NEXUS_MAPPINGS]
+    forced += [f'from_nexus type: {t}' for t in NEXUS_TYPES]
+    forced += [f'chopper is a {r}' for r in SUBCLASS_ROUTES]
+    forced += [f'between computations: {n}' for n in PROTOCOL_OP_NAMES]
+    forced += [f'sequence on slits: {r}' for r in SEQ_REPS]
+    forced += [f'sequence on {d} edges in {u}' for d in SEQ_DTYPES for u in ('deg', 'rad')]
+    forced += [f'variances on {w}' for w in VARIANCE_CARRIERS]
+    forced += ['angle array of 2**20 + 7 elements', 'angle array of 3 x 400001 elements']
+    ev.update({
+        'state.fields_compared': 600 * reps, 'state.results_compared': 500 * reps,
+        'graph.node_result_compared': 60 * reps, 'angle_at_beam.large_array': 2,
+    })
     return {
         'events': ev,
         'forced': forced,
-        'counters': {'cascade_calls_in_phase': 150 * (20 if big else 1)},
+        'counters': {'cascade_calls_in_phase': 150 * (20 if big else 1),
+                     'named_dimension_choppers': len(dim_grid()) * reps,
+                     'call_sequences': len(seq_grid()) * reps},
     }
 
 
-def drive(case, ch, ctx, Chopper, sig, pulses, forbidden=False):
+def call_cascade(Chopper, ch, fp, npulses, form='positional'):
+    """Every calling convention the signature of from_disk_chopper allows; numpy integers for npulses."""
+    if form == 'keyword':
+        return Chopper.from_disk_chopper(disk_chopper=ch, pulse_frequency=fp, npulses=npulses)
+    if form == 'mixed':
+        return Chopper.from_disk_chopper(ch, fp, npulses=npulses)
+    if form == 'np.int64':
+        return Chopper.from_disk_chopper(ch, fp, np.int64(npulses))
+    if form == 'np.int32':
+        return Chopper.from_disk_chopper(ch, pulse_frequency=fp, npulses=np.int32(npulses))
+    return Chopper.from_disk_chopper(ch, fp, npulses)
+
+
+def check_state(mon, ctx, ch, op, reference=None, ignore=()):
+    """The fields of the caller's chopper are bit-identical to what it was constructed with."""
+    try:
+        changed = mon.changed_fields(ch, reference, ignore)
+    except Exception:  # noqa: BLE001
+        ctx.oracle_error('C10 state')
+        return True
+    if changed is None:
+        ctx.count('state.not_judged:construction not observed')
+        return True
+    ctx.event('state.fields_compared')
+    if changed:
+        fz = mon.view(ch if reference is None else reference)
+        kind = 'state.fields_changed' if reference is None else 'state.copy_differs'
+        now = {n: _describe_var(getattr(ch, n)) for n in changed if isinstance(getattr(ch, n, None), sc.Variable)}
+        was = {n: _describe_var(getattr(fz, n)) for n in changed if isinstance(getattr(fz, n, None), sc.Variable)}
+        ctx.violation(kind, (f'after {op}: field(s) {changed} of the chopper differ from the values it was '
+                             f'constructed with' if reference is None else
+                             f'{op}: field(s) {changed} of the copy differ from the original'),
+                      dict(mon.case, op=op, fields=changed, now=now, constructed_with=was), op=op)
+        return False
+    return True
+
+
+def drive(case, ch, ctx, Chopper, sig, pulses, forbidden=False, mon=None):
     """Every public call on an accepted chopper (judged by the monitors)."""
     fp = sc.scalar(case['fp'][0], unit=case['fp'][1])
     decided = case['band'] != 'undecided'
@@ -1215,24 +1670,32 @@ def drive(case, ch, ctx, Chopper, sig, pulses, forbidden=False):
     k = int(case.get('index', 0)) if isinstance(case.get('index', 0), int) else 0
     import zlib
     rng_a = np.random.Generator(np.random.PCG64([zlib.crc32(repr(sig).encode()), 10, 77]))
+    dim = case.get('dim', 'slit')
+    dim2 = DIM_NAMES[(DIM_NAMES.index(dim) + 1) % len(DIM_NAMES)] if dim in DIM_NAMES else 'slit'
+    dims2 = ['a', 'b'] if dim == 'slit' else ([dim2, dim] if rng_a.random() < 0.5 else [dim, dim2])
     for form in range(3):
         unit = 'deg' if (form + k) % 2 == 0 else 'rad'
         scale = 360.0 if unit == 'deg' else 2 * np.pi
         if form == 0:
             ang = sc.scalar(float(rng_a.uniform(-2, 2)) * scale, unit=unit)
         elif form == 1:
-            ang = sc.array(dims=['slit'], values=rng_a.uniform(-1, 2, size=int(rng_a.integers(1, 6))) * scale, unit=unit)
+            ang = sc.array(dims=[dim], values=rng_a.uniform(-1, 2, size=int(rng_a.integers(1, 6))) * scale, unit=unit)
         else:
-            ang = sc.array(dims=['a', 'b'], values=rng_a.uniform(0, 1, size=(2, 3)) * scale, unit=unit)
-        kw = {} if form == 1 and k % 2 else {'n_repetitions': int(rng_a.integers(1, 4))}
+            ang = sc.array(dims=dims2, values=rng_a.uniform(0, 1, size=(2, 3)) * scale, unit=unit)
+        nrep = int(rng_a.integers(1, 4))
+        kw = {} if form == 1 and k % 2 else {'n_repetitions': np.int64(nrep) if form == 2 else nrep}
+        before = _fingerprint(ang)
         try:
             ch.time_offset_angle_at_beam(angle=ang, **kw)
         except Exception:  # noqa: BLE001  (judged by the monitor)
             pass
+        if _fingerprint(ang) != before:
+            ctx.violation('state.argument_changed', 'time_offset_angle_at_beam rewrote the angles it was given',
+                          dict(case_descr(case), angle=_describe_var(ang)), op='time_offset_angle_at_beam')
         ctx.case(('time_offset_angle_at_beam', form, unit, *sig))
     for npulses in pulses:
         try:
-            Chopper.from_disk_chopper(ch, fp, npulses)
+            call_cascade(Chopper, ch, fp, npulses, case.get('cascade_form', 'positional'))
         except Exception:  # noqa: BLE001  (judged by the monitor)
             pass
         if decided:
@@ -1240,6 +1703,274 @@ def drive(case, ch, ctx, Chopper, sig, pulses, forbidden=False):
         if in_phase and not forbidden:
             ctx.count('cascade_calls_in_phase')
             ctx.hit(f'cascade npulses {npulses}')
+            ctx.hit(f'from_disk_chopper called {case.get("cascade_form", "positional")}')
+    if mon is not None:
+        # no public call rewrites the chopper it is called on
+        check_state(mon, ctx, ch, 'the computational calls')
+
+
+# ----------------------------------------------- call sequences on one object ---
+class _Raised(str):
+    pass
+
+
+def _results(ch, fp, Chopper, ctx, full):
+    """Fingerprints (dims, unit, dtype, raw bytes) of what the computational calls return now.  The calls
+    are observed: every result is put on the disk the chopper was constructed as by the monitors."""
+    out = {}
+    calls = [('time_offset_open', lambda: ch.time_offset_open(pulse_frequency=fp)),
+             ('time_offset_close', lambda: ch.time_offset_close(pulse_frequency=fp))]
+    if full:
+        calls += [('open_duration', lambda: ch.open_duration(pulse_frequency=fp)),
+                  ('from_disk_chopper(1)', lambda: call_cascade(Chopper, ch, fp, 1)),
+                  ('from_disk_chopper(3)', lambda: call_cascade(Chopper, ch, fp, 3, 'keyword'))]
+    for name, f in calls:
+        try:
+            r = f()
+            if isinstance(r, sc.Variable):
+                out[name] = _fingerprint(r)
+            else:
+                out[name] = (_fingerprint(r.time_open), _fingerprint(r.time_close), _fingerprint(r.distance))
+        except Exception as e:  # noqa: BLE001  (judged by the monitor)
+            out[name] = _Raised(f'raised {type(e).__name__}')
+    return out
+
+
+def _compare_results(ctx, mon, base, now, op, kind='state.result_changed'):
+    ctx.event('state.results_compared')
+    diff = sorted(n for n in now if now[n] != base.get(n))
+    if diff:
+        ctx.violation(kind, f'after {op}: {diff} no longer return(s) what the same call on the same chopper '
+                      'returned before' if kind == 'state.result_changed' else
+                      f'{op}: {diff} of the copy differ(s) from the result of the same call on the original',
+                      dict(mon.case, op=op, calls=diff), op=op)
+    return not diff
+
+
+def protocol_ops(ch, fp, Chopper, first_open):
+    """(name, callable) for everything a user or a notebook does with a chopper object between two
+    computations: display, text, copies, comparison, serialisation, property reads, use of the bound
+    methods as nodes of a coordinate-transformation graph, a refused call that was caught."""
+    import copy
+    import dataclasses
+    import pickle
+
+    def graph(name):
+        def run():
+            da = sc.DataArray(sc.zeros(dims=first_open.dims, shape=first_open.shape),
+                              coords={'pulse_frequency': fp})
+            try:
+                got = da.transform_coords(['t'], graph={'t': getattr(ch, name)}).coords['t']
+            except Exception as e:  # noqa: BLE001
+                return ('graph', name, e)
+            return ('graph', name, got)
+        return run
+
+    def refused():
+        bad = fp * 1.37     # no ratio n or 1/n of the quantifier stays one after division by 1.37
+        for f in (lambda: ch.time_offset_open(pulse_frequency=bad), lambda: ch.open_duration(pulse_frequency=bad),
+                  lambda: call_cascade(Chopper, ch, bad, 2)):
+            try:
+                f()
+            except ValueError:
+                pass
+
+    return [
+        ('make_svg()', lambda: ch.make_svg()),
+        ('make_svg(np.int64)', lambda: ch.make_svg(np.int64(300))),
+        ('make_svg(image_size=)', lambda: ch.make_svg(image_size=120)),
+        ('_repr_svg_()', lambda: ch._repr_svg_()),
+        ('_repr_html_()', lambda: ch._repr_html_()),
+        ('repr', lambda: repr(ch)),
+        ('str', lambda: str(ch)),
+        ('copy.copy', lambda: copy.copy(ch)),
+        ('copy.deepcopy', lambda: copy.deepcopy(ch)),
+        ('dataclasses.replace()', lambda: dataclasses.replace(ch)),
+        ('dataclasses.replace(radius=)', lambda: dataclasses.replace(ch, radius=sc.scalar(0.5, unit='m'))),
+        ('==', lambda: (ch == copy.deepcopy(ch), ch == ch, ch != ch, ch == 5, ch == 'chopper') and None),
+        ('pickle', lambda: pickle.loads(pickle.dumps(ch))),
+        ('dataclasses.asdict', lambda: dataclasses.asdict(ch) and None),
+        ('dataclasses.astuple', lambda: dataclasses.astuple(ch) and None),
+        ('properties', lambda: (ch.n_slits, ch.angular_frequency, ch.is_clockwise) and None),
+        ('transform_coords(time_offset_open)', graph('time_offset_open')),
+        ('transform_coords(time_offset_close)', graph('time_offset_close')),
+        ('transform_coords(open_duration)', graph('open_duration')),
+        ('a refused call, caught', refused),
+        ('the same calls again', lambda: None),
+    ]
+
+
+PROTOCOL_OP_NAMES = (
+    'make_svg()', 'make_svg(np.int64)', 'make_svg(image_size=)', '_repr_svg_()', '_repr_html_()', 'repr', 'str',
+    'copy.copy', 'copy.deepcopy', 'dataclasses.replace()', 'dataclasses.replace(radius=)', '==', 'pickle',
+    'dataclasses.asdict', 'dataclasses.astuple', 'properties', 'transform_coords(time_offset_open)',
+    'transform_coords(time_offset_close)', 'transform_coords(open_duration)', 'a refused call, caught',
+    'the same calls again')
+
+
+def drive_sequence(case, ch, ctx, mon, Chopper, DiskChopper, sig, k):
+    """Computation, then each protocol operation, after each one: the chopper's fields are bit-identical
+    to what it was constructed with and the same computation returns the same bits; a copy has the
+    fields of the original and returns what the original returns (all results are judged against the
+    disk as constructed by the monitors while they are computed)."""
+    fp = sc.scalar(case['fp'][0], unit=case['fp'][1])
+    base = _results(ch, fp, Chopper, ctx, full=True)
+    if any(isinstance(v, _Raised) for v in base.values()):
+        ctx.count('sequence.not_started:first computation raised')   # judged by the monitors
+        return
+    first_open = ch.time_offset_open(pulse_frequency=fp)
+    check_state(mon, ctx, ch, 'the computational calls')
+    ops = protocol_ops(ch, fp, Chopper, first_open)
+    assert tuple(n for n, _ in ops) == PROTOCOL_OP_NAMES
+    ops = ops[k % len(ops):] + ops[:k % len(ops)]          # every order of neighbours over the shards
+    for name, op in ops:
+        try:
+            r = op()
+        except Exception as e:  # noqa: BLE001
+            # display / serialisation may be refused (integer edges cannot be drawn, scipp variables
+            # cannot be pickled): tallied; what must hold is that the chopper is untouched
+            r = None
+            ctx.count(f'sequence.op_refused:{name}:{type(e).__name__}')
+        ctx.hit(f'between computations: {name}')
+        ctx.case(('sequence', name, *sig))
+        ok = check_state(mon, ctx, ch, name)
+        if isinstance(r, tuple) and r and r[0] == 'graph':
+            ctx.event('graph.node_result_compared')
+            want = getattr(ch, r[1])(pulse_frequency=fp)
+            if isinstance(r[2], Exception):
+                # an in-phase chopper with a valid slit set and the pulse frequency as the only coordinate the
+                # documented signature asks for: a refusal is a refusal of a valid chopper
+                ctx.violation('graph.raised', f'{r[1]} as node of a transform_coords graph raised '
+                              f'{type(r[2]).__name__}: {r[2]}'[:300], dict(mon.case, op=name), op=r[1],
+                              exc=type(r[2]).__name__)
+            elif not sc.identical(r[2], want):
+                ctx.violation('graph.result_differs', f'{r[1]} as node of a transform_coords graph gives a different '
+                              'result than the direct call', dict(mon.case, op=name), op=r[1])
+        if isinstance(r, DiskChopper):
+            ignore = ('radius',) if 'radius' in name else ()
+            same = check_state(mon, ctx, r, name, reference=ch, ignore=ignore)
+            if same:
+                mon.adopt(r, ch)
+                _compare_results(ctx, mon, base, _results(r, fp, Chopper, ctx, full=True), name,
+                                 kind='state.copy_result_differs')
+                check_state(mon, ctx, ch, name + ', then computing with the copy')
+        now = _results(ch, fp, Chopper, ctx, full=not ok or name.startswith(('make_svg()', '_repr', 'a refused')))
+        same = _compare_results(ctx, mon, base, now, name)
+        if not (ok and same):
+            # the object is no longer the chopper that was constructed: what later operations do to it
+            # says nothing about them
+            ctx.count('sequence.stopped_after_state_change')
+            return
+    _compare_results(ctx, mon, base, _results(ch, fp, Chopper, ctx, full=True), 'the whole sequence')
+    check_state(mon, ctx, ch, 'the whole sequence')
+
+
+def hit_call_forms(ctx, case):
+    via = case['via']
+    if via in ('ctor', *SUBCLASS_ROUTES):
+        ctx.hit(f'constructor called {case.get("form", "keyword")}')
+    if via in SUBCLASS_ROUTES:
+        ctx.hit(f'chopper is a {via}')
+    if via.startswith('nexus'):
+        ctx.hit(f'from_nexus given a {case.get("mapping", "dict")}')
+        ctx.hit(f'from_nexus type: {case.get("nexus_type", "absent")}')
+
+
+def deterministic_round6(shard, rep, ctx, mon, DiskChopper, Chopper):
+    """Deterministic classes of every run, spread over the shards: item j of a grid is driven by shard
+    j mod n_shards (only the numbers are drawn from the shard's generator)."""
+    n_sh, me = int(shard.get('n_shards', N_SHARDS)), int(shard['index'])
+    rng_d = np.random.Generator(np.random.PCG64([shard['seed'], shard['index'], 10, 3, rep]))
+
+    def built(case):
+        try:
+            return build(case, DiskChopper)
+        except Exception:  # noqa: BLE001  (judged by the monitors through PY_UNWIND)
+            return None
+
+    # -- valid choppers whose slit arrays carry any dimension name: openings as for any other name
+    for j, (dim, n, sign, rc) in enumerate(dim_grid()):
+        if (j + rep) % n_sh != me:
+            continue
+        case = gen_dim_case(rng_d, dim, n, sign, rc, j + rep)
+        descr = case_descr(case)
+        mon.new_case({'generated': descr})
+        before = ctx.n_violations
+        ch = built(case)
+        name = dim if len(dim) < 20 else 'uuid-shaped'
+        sig = ('named dimension', name, n, sign, rc, case['via'])
+        ctx.case(('build', *sig))
+        ctx.count('named_dimension_choppers')
+        ctx.hit(f'slit dimension named {dim!r}')
+        ctx.hit(f'named slit dimension: {n} slit(s)')
+        ctx.hit('named slit dimension: ' + ('clockwise' if sign < 0 else 'anticlockwise'))
+        ctx.hit(f'named slit dimension: ratio {rc}')
+        hit_call_forms(ctx, case)
+        if ch is not None:
+            drive(case, ch, ctx, Chopper, sig, (1, 2, 3), mon=mon)
+        if ctx.n_violations > before:
+            ctx.sample(descr)
+    # -- call sequences on one object: display / copies / comparison / graph use between computations
+    for j, (srep, dtype, a_unit) in enumerate(seq_grid()):
+        if (j + rep) % n_sh != me:
+            continue
+        case = gen_seq_case(rng_d, srep, dtype, a_unit, j + rep + me)
+        descr = case_descr(case)
+        mon.new_case({'generated': descr})
+        before = ctx.n_violations
+        ch = built(case)
+        sig = ('sequence', srep, dtype, a_unit, case['ratio'], case['sign'])
+        ctx.case(('build', *sig))
+        ctx.count('call_sequences')
+        ctx.hit(f'sequence on slits: {srep}')
+        ctx.hit(f'sequence on {dtype} edges in {a_unit}')
+        if ch is not None:
+            drive_sequence(case, ch, ctx, mon, Chopper, DiskChopper, sig, j + rep + me)
+        if ctx.n_violations > before:
+            ctx.sample(descr)
+    # -- operands with variances: values as without; a refusal (scipp's VariancesError) is tallied
+    for j, where in enumerate(VARIANCE_CARRIERS):
+        if (j + rep) % n_sh != me:
+            continue
+        case = gen_dim_case(rng_d, 'slit', 1 + j % 3, (-1, 1)[j % 2], ('one', 'ge', 'sub')[j % 3], 0)
+        case.update(variances=where, via='ctor', form='keyword', cascade_form='positional')
+        descr = case_descr(case)
+        mon.new_case({'generated': descr})
+        ch = built(case)
+        ctx.hit(f'variances on {where}')
+        ctx.case(('variances', where))
+        ctx.count('variances:constructed' if ch is not None else 'variances:not constructed')
+        if ch is None:
+            continue
+        fp = sc.scalar(case['fp'][0], unit=case['fp'][1], **({'variance': 1e-12} if where == 'pulse_frequency' else {}))
+        ang = sc.array(dims=['slit'], values=[0.5, 2.0], unit='rad',
+                       **({'variances': [1e-6, 1e-6]} if where == 'angle' else {}))
+        for f in (lambda: ch.time_offset_open(pulse_frequency=fp), lambda: ch.time_offset_close(pulse_frequency=fp),
+                  lambda: ch.open_duration(pulse_frequency=fp), lambda: ch.time_offset_angle_at_beam(angle=ang),
+                  lambda: ch.time_offset_angle_at_beam(angle=ang['slit', 0], n_repetitions=2),
+                  lambda: Chopper.from_disk_chopper(ch, fp, 2)):
+            try:
+                r = f()
+                ctx.count('variances:call accepted')
+                if getattr(r, 'variances', None) is not None:
+                    ctx.count('variances:result variances not judged')
+            except Exception:  # noqa: BLE001  (judged / tallied by the monitors)
+                pass
+    # -- sizes: one heavy call of the documented building block (last shard: the lightest)
+    if me == n_sh - 1 and rep == 0:
+        case = gen_dim_case(rng_d, 'slit', 2, -1, 'one', 1)
+        mon.new_case({'generated': case_descr(case)})
+        ch = built(case)
+        if ch is not None:
+            for label, dims, shape in (('2**20 + 7', ['slit'], (2 ** 20 + 7,)), ('3 x 400001', ['row', 'slit'], (3, 400001))):
+                ang = sc.array(dims=dims, values=rng_d.uniform(-1.0, 2.0, size=shape) * 360.0, unit='deg')
+                try:
+                    ch.time_offset_angle_at_beam(angle=ang, n_repetitions=1)
+                except Exception:  # noqa: BLE001  (judged by the monitor)
+                    pass
+                ctx.hit(f'angle array of {label} elements')
+                ctx.case(('time_offset_angle_at_beam', 'large', label))
+            check_state(mon, ctx, ch, 'the computational calls')
 
 
 def run(shard, ctx):
@@ -1315,7 +2046,7 @@ def run(shard, ctx):
                 ctx.case(('build', *sig))
                 ctx.hit(f'valid edge set: {cls}')
                 if ch is not None and cls in VALID_DRIVEN:
-                    drive(case, ch, ctx, Chopper, sig, (1, 2, 3, 4))
+                    drive(case, ch, ctx, Chopper, sig, (1, 2, 3, 4), mon=mon)
                 if ctx.n_violations > before:
                     ctx.sample(descr)
             for cls in THRESHOLD_SETS:
@@ -1326,13 +2057,16 @@ def run(shard, ctx):
                 except Exception:  # noqa: BLE001
                     pass
                 ctx.count(f'threshold_set_built:{cls}')
+            deterministic_round6(shard, rep, ctx, mon, DiskChopper, Chopper)
         # -- random part
+        rng_f = np.random.Generator(np.random.PCG64([shard['seed'], shard['index'], 10, 2]))
         for i in range(shard['choppers']):
-            case = gen_case(rng, ctx)
+            case = gen_call_forms(rng_f, gen_case(rng, ctx))
             descr = case_descr(case)
             mon.new_case({'generated': descr})
             sig = (case['ratio'], case['sign'], case['band'], case['n_slits'], case['tdc'],
-                   case['a_unit'], case['f'][1], case['fp'][1], case['via'])
+                   case['a_unit'], case['f'][1], case['fp'][1], case['via'],
+                   case['dim'] if case['dim'] in DIM_NAMES else 'other name')
             before = ctx.n_violations
             try:
                 ch = build(case, DiskChopper)
@@ -1366,7 +2100,8 @@ def run(shard, ctx):
                 if case['f'][1] != case['fp'][1]:
                     ctx.hit('chopper and source frequency in different units')
             pulses = (1, 2, 3, 4) if in_phase else (int(rng.integers(1, 5)),)
-            drive(case, ch, ctx, Chopper, sig, pulses)
+            hit_call_forms(ctx, case)
+            drive(case, ch, ctx, Chopper, sig, pulses, mon=mon)
             if ctx.n_violations > before:
                 ctx.sample(descr)
     ctx.extra['hooked_call_counts'] = dict(tr.counts)
